@@ -26,7 +26,7 @@ ASSUMPTIONS = [
 
 MISMATCH = {1: "cold pull", 7: "warm pull", 2: "validator credits", 3: "delegator credits", 4: "consumed total",
             8: "WITHDRAW_REWARD verdict/records", 5: "year records", 6: "matured/cumulative records", 9: "model predicts a panic"}
-VIOL = {10: "credits exceed the pulled amount", 11: "negative credit", 12: "negative pulled amount",
+VIOL = {10: "rewards credited in a block (validators' chunks + all delegator reward balances, proposer bonus included) exceed the amount pulled for that block", 11: "negative credit", 12: "negative pulled amount",
         20: "per-block amount depends on a restart (warm cache <> cold cache)",
         21: "pulled amount above the remaining year supply / the pool-capped burnout rate",
         30: "cumulative invariant broken (balance < 0 or balance + withdrawn <> matured)",
@@ -173,6 +173,8 @@ def run(ctx):
                 "-pcases", str(per["pcases"]), "-pblocks", str(per["pblocks"]), "-qcases", str(per["qcases"]), "-qops", str(per["qops"])]
         if i == 0 and nf:
             args += ["-replay-pcases", fpath]
+        if i == 0:
+            args += ["-directed"]
         if corpus_wvalues():
             args += ["-corpus-wvalues", ",".join(corpus_wvalues())]
         jobs.append((i, args))
@@ -190,7 +192,9 @@ def run(ctx):
         "evaluations": tot["blocks"] + tot["psteps"] + tot["qops"],
         "distinct_nontrivial": tot["distinct_blocks"] + tot["psteps"] + tot["qops"],
         "rule": "seeded generators: whole-app chains (1-8 genesis validators, 3 power patterns, absent-signer patterns none/one/half/all, "
-                "delegation pool none/tiny/huge/medium/balance-only, stake/delegate/undelegate/withdraw-reward transactions, restarts, 5 block-time "
+                "delegation pool none/tiny/huge/medium/balance-only, stake/delegate/undelegate/withdraw-reward transactions, in half of the chains "
+                "network-delegation traffic (delegate 40-250000 OLT, undelegate 50-90% as the last delegation-store transaction of a block, undelegations "
+                "that are only CheckTx'ed), two directed witnesses (delegate 1000 / undelegate 900 delivered or only checked), restarts, 5 block-time "
                 "patterns incl. month jumps and sub-second blocks, 1-3 reward years, cycle 1-10, interval 1-5); calculator runs over a real block "
                 "store (cycle up to 25, warm and cold twin stores, restarts); cumulative store operation sequences; distinct = distinct recorded "
                 "block records + calculator steps + store operations",
@@ -204,7 +208,8 @@ def run(ctx):
         "histogram": hist, "samples": parts[0]["rep"]["samples"],
         "explanation": "theorems of props/C13.v re-checked; Rewards.v (split, calculator, cumulative records) evaluated by vm_compute on every "
                        "recorded block of real app.App runs and on every step of package-level runs of rewards.RewardCumulativeStore "
-                       "(model_mismatches must be 0); monitors evaluated on the implementation's observations only: credits <= pulled, no negative "
+                       "(model_mismatches must be 0); monitors evaluated on the implementation's observations only: credits (every vote's chunk delta + the deltas of "
+                       "ALL delegator reward balances, not only of the active table) <= pulled, no negative "
                        "credit/pull, warm pull = cold pull (two real stores), pull within remaining supply / pool-capped burnout, "
                        "balance >= 0 and balance + withdrawn = matured",
     })
